@@ -129,6 +129,10 @@ func (enc *Encoder) validQuoted(s string) bool {
 }
 
 func (enc *Encoder) stringLiteral(s string) {
+	if enc.err != nil {
+		return
+	}
+
 	var sync *ContinuationRequest
 	if enc.side == ConnSideClient && (!enc.LiteralMinus || len(s) > 4096) && !enc.LiteralPlus {
 		if enc.NewContinuationRequest != nil {
